@@ -45,7 +45,27 @@ func (f *FileReaderImpl) CollectPythonFiles(paths []string, recursive bool, incl
 		}
 	}
 
-	return files, nil
+	return uniqueFiles(files), nil
+}
+
+// uniqueFiles drops paths that name a file already in the list, so that
+// overlapping arguments (e.g. "." and "sub") do not analyze a file twice.
+// Files are identified by their cleaned absolute path; the first spelling is kept.
+func uniqueFiles(files []string) []string {
+	seen := make(map[string]struct{}, len(files))
+	unique := files[:0]
+	for _, file := range files {
+		key, err := filepath.Abs(file)
+		if err != nil {
+			key = filepath.Clean(file)
+		}
+		if _, dup := seen[key]; dup {
+			continue
+		}
+		seen[key] = struct{}{}
+		unique = append(unique, file)
+	}
+	return unique
 }
 
 // ReadFile reads the content of a file
